@@ -22,6 +22,7 @@ EXPLANATION = (
     "default off) - the flags to_prolog documents as required."
     " Added after seed round 6: U5 memo-key rule over the export path (to_prolog call closure): a memoised value is keyed by every argument the callee reads (positive example matched on every run); U6 enum_clauses writes a disjunct unless extract_ads consumed it and it has no name of its own."
     " Added after seed round 7: U7 to_prolog re-defines a deterministic query / evidence atom with its own truth value and writes the observed polarity of evidence (scenario tables; helper methods evaluated under the same scenario)."
+    " Added after seed round 8: U8 per-node tables on the export path are indexed with abs(child); the header and clause lines of to_dimacs are decided on the text they denote."
 )
 TECHNIQUE = "static analysis: decision table of the DIMACS writer loop (every internal clause emitted once), writer/counter pairing, wiring rules of the ground task"
 LEVEL_TEXT = EXPLANATION
@@ -126,12 +127,28 @@ def rule_u2(repo, col):
             tags.add(("plain", t))
     col.decide("U2", m, f.node, ("plain", "'cnf'") in tags and ("weighted", "'wcnf'") in tags and len(tags) == 2, "problem line: cnf unless weighted (wcnf)",
                "the problem line must say `cnf` for the plain export and `wcnf` for the weighted one; found %s" % sorted(tags), construct="problem line type", function="CNF.to_dimacs")
-    okh = "'p %s %s\\n' % (t, ' '.join(map(str, header)))" in src
-    col.decide("U2", m, f.node, okh, "header line `p <type> <atoms> <clauses>`", "the first line must be 'p %s %s\\n' % (t, ' '.join(map(str, header)))", construct="problem line", function="CNF.to_dimacs")
-    body_ok = ("'\\n'.join(map(lambda cl: ' '.join(map(str, cl)) + ' 0', content))" in src) or ("'\\n'.join((' '.join(map(str, cl)) + ' 0' for cl in content))" in src) \
-        or ("'\\n'.join([' '.join(map(str, cl)) + ' 0' for cl in content])" in src)
+    # header and clause lines: decided on the TEXT the expressions denote (%, .format, f-strings, + are folded), not on how they are spelled
+    from ..astutil import fold_text
+    first = [st_ for st_ in walk_no_nested(f.node) if isinstance(st_, ast.Assign) and norm(st_.targets[0]) == "result"]
+    htxt = fold_text(first[0].value, {"t": "\x00T\x00", "' '.join(map(str, header))": "\x00H\x00"}) if first else None
+    okh = htxt == "p \x00T\x00 \x00H\x00\n"
+    col.decide("U2", m, first[0] if first else f.node, okh, "header line `p <type> <atoms> <clauses>`", "the first line must read 'p <type> <header fields separated by blanks>' and end the line; "
+               "found %r" % (htxt.replace("\x00T\x00", "<type>").replace("\x00H\x00", "<fields>") if htxt else None), construct="problem line", function="CNF.to_dimacs")
+    body_ok = False
+    for x in ast.walk(f.node):
+        if isinstance(x, ast.Call) and isinstance(x.func, ast.Attribute) and x.func.attr == "join" and isinstance(x.func.value, ast.Constant) and x.func.value.value == "\n" and len(x.args) == 1:
+            it = x.args[0]
+            elt, var, src_it = None, None, None
+            if isinstance(it, ast.Call) and dotted(it.func) == "map" and len(it.args) == 2 and isinstance(it.args[0], ast.Lambda) and len(it.args[0].args.args) == 1:
+                elt, var, src_it = it.args[0].body, it.args[0].args.args[0].arg, norm(it.args[1])
+            elif isinstance(it, (ast.GeneratorExp, ast.ListComp)) and len(it.generators) == 1 and isinstance(it.generators[0].target, ast.Name) and not it.generators[0].ifs:
+                elt, var, src_it = it.elt, it.generators[0].target.id, norm(it.generators[0].iter)
+            if elt is None or src_it != "content":
+                continue
+            ltxt = fold_text(elt, {"' '.join(map(str, %s))" % var: "\x00L\x00", "' '.join((str(x) for x in %s))" % var: "\x00L\x00"})
+            body_ok = ltxt == "\x00L\x00 0"
     col.decide("U2", m, f.node, body_ok, "every clause is one line: literals separated by blanks, terminated by ' 0'",
-               "each emitted clause must be printed as ' '.join(map(str, clause)) + ' 0', one per line, in the order of the content list", construct="clause lines", function="CNF.to_dimacs")
+               "each emitted clause must be printed as its literals separated by blanks followed by ' 0', one per line, in the order of the content list", construct="clause lines", function="CNF.to_dimacs")
     # every piece of text put in front of the clause block ends with a newline (otherwise the first clause is glued to a comment and lost to a DIMACS reader)
     def ends_nl(e, env):
         """True / False / None (unknown)"""
